@@ -1,6 +1,6 @@
-Extract/C01x.vo Extract/C01x.glob Extract/C01x.v.beautified Extract/C01x.required_vo: Extract/C01x.v Model/StCore.vo Model/StTyping.vo Model/StRef.vo
-Extract/C01x.vio: Extract/C01x.v Model/StCore.vio Model/StTyping.vio Model/StRef.vio
-Extract/C01x.vos Extract/C01x.vok Extract/C01x.required_vos: Extract/C01x.v Model/StCore.vos Model/StTyping.vos Model/StRef.vos
+Extract/C01x.vo Extract/C01x.glob Extract/C01x.v.beautified Extract/C01x.required_vo: Extract/C01x.v Model/StCore.vo Model/StTyping.vo Model/StRef.vo Model/StCalls.vo
+Extract/C01x.vio: Extract/C01x.v Model/StCore.vio Model/StTyping.vio Model/StRef.vio Model/StCalls.vio
+Extract/C01x.vos Extract/C01x.vok Extract/C01x.required_vos: Extract/C01x.v Model/StCore.vos Model/StTyping.vos Model/StRef.vos Model/StCalls.vos
 Extract/C04x.vo Extract/C04x.glob Extract/C04x.v.beautified Extract/C04x.required_vo: Extract/C04x.v Model/Fb.vo Spec/C04.vo Spec/C04Judge.vo
 Extract/C04x.vio: Extract/C04x.v Model/Fb.vio Spec/C04.vio Spec/C04Judge.vio
 Extract/C04x.vos Extract/C04x.vok Extract/C04x.required_vos: Extract/C04x.v Model/Fb.vos Spec/C04.vos Spec/C04Judge.vos
@@ -100,6 +100,9 @@ Model/RetainCodec.vos Model/RetainCodec.vok Model/RetainCodec.required_vos: Mode
 Model/Sched.vo Model/Sched.glob Model/Sched.v.beautified Model/Sched.required_vo: Model/Sched.v 
 Model/Sched.vio: Model/Sched.v 
 Model/Sched.vos Model/Sched.vok Model/Sched.required_vos: Model/Sched.v 
+Model/StCalls.vo Model/StCalls.glob Model/StCalls.v.beautified Model/StCalls.required_vo: Model/StCalls.v Model/StCore.vo
+Model/StCalls.vio: Model/StCalls.v Model/StCore.vio
+Model/StCalls.vos Model/StCalls.vok Model/StCalls.required_vos: Model/StCalls.v Model/StCore.vos
 Model/StCore.vo Model/StCore.glob Model/StCore.v.beautified Model/StCore.required_vo: Model/StCore.v 
 Model/StCore.vio: Model/StCore.v 
 Model/StCore.vos Model/StCore.vok Model/StCore.required_vos: Model/StCore.v 
@@ -187,12 +190,15 @@ Proofs/CycleProofs.vos Proofs/CycleProofs.vok Proofs/CycleProofs.required_vos: P
 Proofs/IoProofs.vo Proofs/IoProofs.glob Proofs/IoProofs.v.beautified Proofs/IoProofs.required_vo: Proofs/IoProofs.v Model/Io.vo
 Proofs/IoProofs.vio: Proofs/IoProofs.v Model/Io.vio
 Proofs/IoProofs.vos Proofs/IoProofs.vok Proofs/IoProofs.required_vos: Proofs/IoProofs.v Model/Io.vos
+Proofs/StCallsProofs.vo Proofs/StCallsProofs.glob Proofs/StCallsProofs.v.beautified Proofs/StCallsProofs.required_vo: Proofs/StCallsProofs.v Model/StCore.vo Model/StCalls.vo
+Proofs/StCallsProofs.vio: Proofs/StCallsProofs.v Model/StCore.vio Model/StCalls.vio
+Proofs/StCallsProofs.vos Proofs/StCallsProofs.vok Proofs/StCallsProofs.required_vos: Proofs/StCallsProofs.v Model/StCore.vos Model/StCalls.vos
 Proofs/StProofs.vo Proofs/StProofs.glob Proofs/StProofs.v.beautified Proofs/StProofs.required_vo: Proofs/StProofs.v Model/StCore.vo Model/StTyping.vo
 Proofs/StProofs.vio: Proofs/StProofs.v Model/StCore.vio Model/StTyping.vio
 Proofs/StProofs.vos Proofs/StProofs.vok Proofs/StProofs.required_vos: Proofs/StProofs.v Model/StCore.vos Model/StTyping.vos
-Properties/C01.vo Properties/C01.glob Properties/C01.v.beautified Properties/C01.required_vo: Properties/C01.v Model/StCore.vo Model/StTyping.vo Proofs/StProofs.vo
-Properties/C01.vio: Properties/C01.v Model/StCore.vio Model/StTyping.vio Proofs/StProofs.vio
-Properties/C01.vos Properties/C01.vok Properties/C01.required_vos: Properties/C01.v Model/StCore.vos Model/StTyping.vos Proofs/StProofs.vos
+Properties/C01.vo Properties/C01.glob Properties/C01.v.beautified Properties/C01.required_vo: Properties/C01.v Model/StCore.vo Model/StTyping.vo Proofs/StProofs.vo Model/StCalls.vo Proofs/StCallsProofs.vo
+Properties/C01.vio: Properties/C01.v Model/StCore.vio Model/StTyping.vio Proofs/StProofs.vio Model/StCalls.vio Proofs/StCallsProofs.vio
+Properties/C01.vos Properties/C01.vok Properties/C01.required_vos: Properties/C01.v Model/StCore.vos Model/StTyping.vos Proofs/StProofs.vos Model/StCalls.vos Proofs/StCallsProofs.vos
 Properties/C02.vo Properties/C02.glob Properties/C02.v.beautified Properties/C02.required_vo: Properties/C02.v Model/StCore.vo Model/StTyping.vo Model/StRef.vo Proofs/StProofs.vo Proofs/C02Proofs.vo Proofs/C02Refine.vo
 Properties/C02.vio: Properties/C02.v Model/StCore.vio Model/StTyping.vio Model/StRef.vio Proofs/StProofs.vio Proofs/C02Proofs.vio Proofs/C02Refine.vio
 Properties/C02.vos Properties/C02.vok Properties/C02.required_vos: Properties/C02.v Model/StCore.vos Model/StTyping.vos Model/StRef.vos Proofs/StProofs.vos Proofs/C02Proofs.vos Proofs/C02Refine.vos
